@@ -856,16 +856,17 @@ def op_table():
                     return                      # outside the domain of the statement (two-ended links between vertices)
                 if not any(l is m for m in incident):
                     incident.append(l)
+        blank = (kind // 4) % 2 == 1          # titles that contain a blank (the title is whatever the format produces, not one token)
         kind = kind % 4
         vopt = {"type": "object", "show_attrs": ["pname", "tag"], "title_format": "$id"}
         options = {E["Vertex"]: vopt, E["DirectedEdge"]: {"v1side": "", "v2side": ">"}, E["UnDirectedEdge"]: {"v1side": "", "v2side": ""},
                    E["TwoEndedLink"]: {"v1side": "x", "v2side": "o"}}
         if kind in (1, 3):
-            vopt["title_format"] = "{pname}"
+            vopt["title_format"] = "v {pname}" if blank else "{pname}"
             options["skinparams"] = {"dpi": "300"}
         if kind in (2, 3):
             # class-specific entries: the nearest configured class in the MRO decides
-            options[P.vclasses["MarkedVertex"]] = {"type": "class", "show_attrs": ["pname"], "title_format": "m_{pname}"}
+            options[P.vclasses["MarkedVertex"]] = {"type": "class", "show_attrs": ["pname"], "title_format": "m {pname}" if blank else "m_{pname}"}
             options[P.classes["SubDirected"]] = {"v1side": "<", "v2side": "*"}
             options[E["Universe"]] = {"type": "package", "show_attrs": [".+name"], "title_format": "$id",
                                       "stereotype_skinparams": {"BackgroundColor": "White"}}
@@ -906,11 +907,11 @@ def op_table():
             raise PropertyViolation("C14: the text is not enclosed in @startuml / @enduml")
         decls, rels = [], []
         for line in got.split("\n"):
-            m = _re.match(r"^(\w+) (\S+) <<(\w+)>> \{$", line)
+            m = _re.match(r"^(\w+) (.+) <<(\w+)>> \{$", line)
             if m:
                 decls.append(m.groups())
                 continue
-            m = _re.match(r"^(\S+) ([^\s-]*)--([^\s-]*) (\S+)$", line)
+            m = _re.match(r"^(\S.*?) ([^\s-]*)--([^\s-]*) (\S.*)$", line)
             if m:
                 rels.append(m.groups())
         if sorted(decls) != want_decl:
